@@ -283,6 +283,24 @@ def worker():
                     if isinstance(e, (KeyboardInterrupt, SystemExit)):
                         raise
                     rs = {"ok": True, "result": err(e), "msg": str(e)[:200]}
+            elif cmd == "trees_info":
+                # structural description of a trees.pkl (for the harness' abstraction; pickles of KDTrees with
+                # inner nodes are not byte-reproducible): complete? single tree or tuple? records per tree
+                import pickle
+                Y()
+                try:
+                    with open(rq["path"], "rb") as fh:
+                        obj = pickle.load(fh)
+                    if isinstance(obj, tuple):
+                        rs = {"ok": True, "complete": True, "binned": True, "counts": [int(t.num_records) for t in obj],
+                              "sumw": [float(t.sum_weights).hex() for t in obj]}
+                    else:
+                        rs = {"ok": True, "complete": True, "binned": False, "counts": [int(obj.num_records)],
+                              "sumw": [float(obj.sum_weights).hex()]}
+                except BaseException as e:  # noqa
+                    if isinstance(e, (KeyboardInterrupt, SystemExit)):
+                        raise
+                    rs = {"ok": True, "complete": False, "error": err(e)}
             elif cmd == "quit":
                 out.write(json.dumps({"ok": True}) + "\n")
                 out.flush()
